@@ -9,7 +9,7 @@
     not part of the result, so "probing does not change the object" holds by construction and
     there is nothing to prove. On the Go side the harness compares the probed deep copy with
     the original after every Probe call. *)
-From Coq Require Import List ZArith NArith Bool String.
+From Coq Require Import List ZArith NArith Bool String Permutation.
 From PKO Require Import Util Json Probe ProbeProofs.
 From PKOCorr Require Import C17Corr.
 Import ListNotations.
@@ -172,6 +172,32 @@ Theorem C17_monitor_pass_sound :
   forall qs objs c, model_pass qs objs = Some c -> monitor_pass c = true.
 Proof. exact monitor_pass_sound. Qed.
 Print Assumptions C17_monitor_pass_sound.
+
+(** Algebra of the conjunction: probing with the concatenation of two probe lists is the
+    conjunction of probing with each (flags) and reports both lists of failures, in order ... *)
+Theorem C17_probe_app :
+  forall cel_compile cel_eval (qs1 qs2 : list osp) (p1 p2 p : prober) (o : json),
+    parse cel_compile cel_eval qs1 = inr p1 -> parse cel_compile cel_eval qs2 = inr p2 ->
+    parse cel_compile cel_eval (qs1 ++ qs2) = inr p ->
+    fst (p o) = fst (p1 o) && fst (p2 o) /\ snd (p o) = snd (p1 o) ++ snd (p2 o).
+Proof. exact probe_app. Qed.
+Print Assumptions C17_probe_app.
+
+(** ... the verdict does not depend on the order in which the ObjectSetProbes are listed ... *)
+Theorem C17_probe_order_irrelevant :
+  forall cel_compile cel_eval (qs qs' : list osp) (p p' : prober) (o : json),
+    Permutation qs qs' -> parse cel_compile cel_eval qs = inr p -> parse cel_compile cel_eval qs' = inr p' ->
+    fst (p o) = fst (p' o).
+Proof. exact probe_perm. Qed.
+Print Assumptions C17_probe_order_irrelevant.
+
+(** ... and adding probes never lets an object pass that failed before. *)
+Theorem C17_probe_antitone :
+  forall cel_compile cel_eval (qs qs' : list osp) (p p' : prober) (o : json),
+    incl qs qs' -> parse cel_compile cel_eval qs = inr p -> parse cel_compile cel_eval qs' = inr p' ->
+    fst (p' o) = true -> fst (p o) = true.
+Proof. exact probe_mono. Qed.
+Print Assumptions C17_probe_antitone.
 
 (** Non-vacuity: the hypotheses of the implications above are satisfiable, with a prober that
     really comes out of [parse] (witnesses in C17Corr.v). *)
